@@ -670,6 +670,8 @@ impl RocksDBStateMachine {
             }
             entries.push((Bytes::copy_from_slice(&k), Bytes::copy_from_slice(&v)));
         }
+        #[cfg(deventlab_d_engine_verif)]
+        crate::storage::verif_kv_points::hit("rocks.scan.after_iter");
 
         let revision = self.last_applied_index.load(Ordering::SeqCst);
         Ok(ScanResult { entries, revision })
@@ -886,6 +888,8 @@ impl StateMachine for RocksDBStateMachine {
         }
 
         db.write_wbwi(&batch).map_err(|e| StorageError::DbError(e.to_string()))?;
+        #[cfg(deventlab_d_engine_verif)]
+        crate::storage::verif_kv_points::hit("rocks.apply.after_write");
 
         if let Some(highest) = highest_index_entry {
             self.update_last_applied(highest);
@@ -1061,6 +1065,8 @@ impl StateMachine for RocksDBStateMachine {
             db.flush().map_err(|e| StorageError::DbError(e.to_string()))?;
             Ok(())
         })?;
+        #[cfg(deventlab_d_engine_verif)]
+        crate::storage::verif_kv_points::hit("rocks.flush.before_meta");
         self.persist_state_machine_metadata()
     }
 
